@@ -19,6 +19,7 @@ Verdict ==
   ELSE IF T.obs.path # ExpectedPath(T.form, T.t) THEN "PathInfoNotDecodedPath"
   ELSE IF T.obs.query # ExpectedQuery(T.form, T.t) THEN "QueryStringNotAsSent"
   ELSE IF \E n \in Names : VarOf(n) # ExpectedVar(T.hdrs, n) THEN "HeaderVariableWrong"
+  ELSE IF T.obs.invented > 0 THEN "VariableForFieldNotSent"
   ELSE IF ~T.obs.ct_ok THEN "ContentTypeOrLengthWrong"
   ELSE "ok"
 TInit == tid \in 1..NT /\ l = 1 /\ verdict = "ok" /\ tgt = [form |-> "star", t |-> <<>>]
